@@ -598,7 +598,11 @@ func (c *Client) negotiateVersion(ctx context.Context) error {
 	if err := bi.Err(); err != nil {
 		return err
 	}
-	serverVersions := bi.ResponsePayload.(*payloads.DiscoverVersionsResponsePayload).ProtocolVersion
+	pl, ok := bi.ResponsePayload.(*payloads.DiscoverVersionsResponsePayload)
+	if !ok {
+		return fmt.Errorf("Unexpected response payload type %T", bi.ResponsePayload)
+	}
+	serverVersions := pl.ProtocolVersion
 	if len(serverVersions) == 0 {
 		return errors.New("Protocol version negotiation failed. No common version found")
 	}
@@ -721,7 +725,13 @@ func (ex Executor[Req, Resp]) ExecContext(ctx context.Context) (Resp, error) {
 		var zero Resp
 		return zero, err
 	}
-	return resp.(Resp), nil
+	// The payload type is chosen by the server's response: do not trust it blindly.
+	typed, ok := resp.(Resp)
+	if !ok {
+		var zero Resp
+		return zero, fmt.Errorf("Unexpected response payload type %T", resp)
+	}
+	return typed, nil
 }
 
 // MustExec is like Exec except it panics if the request fails.
